@@ -154,7 +154,46 @@ pub fn make_case(seed: u64, run: u64, thorough: bool, _stats: &mut Stats) -> Opt
     let nf = if r.chance(10) { 0 } else if r.chance(60) { 1 } else { r.urange(2, 3) };
     for _ in 0..nf {
         let len = src.len();
-        match r.below(16) {
+        match r.below(18) {
+            16 | 17 => {
+                // a random call graph of macros: any macro may use any other (or itself), earlier or
+                // later in its body, so cycles of every shape occur - direct, through several
+                // macros, closing through a later sibling use after an earlier one has returned,
+                // through names that differ only in case. The answer must be a diagnostic.
+                let n = r.urange(1, 6);
+                let names: Vec<String> = (0..n).map(|k| if r.chance(25) { format!("MC_{}", k) } else { format!("mc_{}", k) }).collect();
+                let arity: Vec<usize> = (0..n).map(|_| r.urange(0, 2)).collect();
+                let wrong_arity = r.chance(15);
+                let mut t = String::new();
+                for k in 0..n {
+                    let params: Vec<String> = (0..arity[k]).map(|q| format!("v_{}", q)).collect();
+                    let items = r.urange(1, 3);
+                    let mut body = Vec::new();
+                    for _ in 0..items {
+                        if r.chance(60) {
+                            let callee = r.usize_below(n);
+                            let na = if wrong_arity && r.chance(30) { r.urange(0, 3) } else { arity[callee] };
+                            let args: Vec<String> = (0..na)
+                                .map(|q| if !params.is_empty() && r.chance(50) { params[q % params.len()].clone() } else { format!("{}", r.below(9)) })
+                                .collect();
+                            body.push(format!("{}({})", names[callee], args.join(",")));
+                        } else {
+                            let src = if !params.is_empty() { params[0].clone() } else { "1".to_owned() };
+                            body.push(format!("mov ax, {}", src));
+                        }
+                    }
+                    t.push_str(&format!("macro {}({}) -> {} <-\n", names[k], params.join(","), body.join(" ")));
+                }
+                t.push_str("start:\n");
+                for _ in 0..r.urange(1, 3) {
+                    let callee = r.usize_below(n);
+                    let args: Vec<String> = (0..arity[callee]).map(|_| format!("{}", r.below(9))).collect();
+                    t.push_str(&format!("{}({})\n", names[callee], args.join(",")));
+                }
+                t.push_str("print reg\n");
+                src = t.into_bytes();
+                faults.push(format!("macro_call_graph({})", n));
+            }
             0 => {
                 if len > 0 {
                     let p = r.usize_below(len);
